@@ -118,8 +118,8 @@ LEVEL_TEXT = ('Proved in Lean over the model, for every page text / gzip functio
               'streamed statement is proved false (C06_stream_full_false), and the two classes where the *framework* '
               'produces the wrong length are recorded findings with iff-theorems on flags read from the live code: C06-F1 '
               '(str body + own Content-Length + streaming encode) and C06-F2 (xmlrpcutil counts characters; fix proposed). '
-              'zlib, md5, the Range parser and the error / redirect page texts are parameters; the multipart/byteranges '
-              'text is computed exactly.')
+              'zlib, md5, the Range parser and every text the framework generates (error / redirect pages, bare_error, '
+              'multipart/byteranges boundaries and part headers, XML-RPC faults) are parameters.')
 LEVEL_NOTE = ('Trusted: Lean kernel (propext, Quot.sound only), the hand model lean/CpModel/Finalize.lean as validated by the '
               'differential run (status, Content-Length presence and value, delivered byte count, end of iteration, stream / '
               'cache-hit flags, Content-Encoding, Content-Type base and charset per request), the PEP 3333 server emulation '
@@ -131,9 +131,10 @@ TRUSTED_BASE = [
     'sizes are compared only through the Content-Length = delivered relation)',
     'md5 is injective on the bodies of one case (model: entity tag = the collapsed body)',
     'httputil.get_ranges (property C16) is an input of the model: the harness calls the real function and passes its result',
-    'the texts of the default error template, redirect notes, XML-RPC faults for exceptions raised outside the handler are '
-    'parameters (stand-ins in the driver; numbers compared only where the model knows the text: handler bodies, custom error '
-    'pages, custom error_response, bare_error without traceback, multipart/byteranges bodies, XML-RPC results)',
+    'every text the framework generates (default error template, redirect notes, bare_error, multipart/byteranges '
+    'boundaries and part headers, XML-RPC faults) is a parameter (stand-ins in the driver): for those only the relations '
+    'Content-Length = delivered and delivered = 0 are compared, so rewording them cannot trip the check; numbers are compared '
+    'only for texts the harness supplies (handler bodies, custom error pages, custom error_response, XML-RPC results)',
     'xmlrpc.client.dumps (the marshaller) is an input: the harness passes the marshalled text to the model',
     'PEP 3333 server emulation in harness/c06_real.py (headers leave with the first non-empty chunk; start_response with '
     'exc_info re-raises once they left; close() is always called and an exception out of it is an unclean end)',
